@@ -195,6 +195,21 @@ class SanctuaryUniverse(Universe):
             self.add_vertex(vert)
 
 
+class RegionUniverse(Universe):
+    """
+    A universe with a container protocol of its own: `x in region` answers an
+    application question (is x tagged with an even number?), not "is x listed
+    in .vertices".  The base class has no such protocol, so this says nothing
+    about membership bookkeeping.
+    """
+
+    def __contains__(self, item):
+        return getattr(item, "sim_tag", 1) % 2 == 0
+
+    def __iter__(self):
+        return iter(())
+
+
 class JournalVertex(Vertex):
     """
     A vertex that keeps a journal of the universes it joins.  The journal is
@@ -407,6 +422,7 @@ UNIVERSE_CLASSES = {
     "ClusterUniverse": ClusterUniverse,
     "RaisingUniverse": RaisingUniverse,
     "SanctuaryUniverse": SanctuaryUniverse,
+    "RegionUniverse": RegionUniverse,
 }
 EDGE_CLASSES = {
     "DirectedEdge": DirectedEdge,
